@@ -32,7 +32,7 @@ ASSUMPTIONS = [
     "detail texts contain no lines that look like TextTestResult section headers",
 ]
 
-BASES = ["TestResult", "TextTestResult", "Multi", "TSFR", "ETSD"]
+BASES = ["TestResult", "TextTestResult", "Multi", "TSFR", "ETSD", "ETOD-py26", "Multi-py26", "ETOD-py27"]
 WRAPS = ["ETOD", "Decorator", "Tagger"]
 HIST = H.s_history(max_tests=4, with_control=False, with_tags=False, with_time=False, max_ops=22)
 
@@ -41,9 +41,13 @@ HIST = H.s_history(max_tests=4, with_control=False, with_tags=False, with_time=F
 def s_case(draw):
     base = draw(st.sampled_from(BASES))
     wraps = draw(st.lists(st.sampled_from(WRAPS), max_size=2)) if base != "ETSD" else []
-    ff = draw(st.sampled_from(["off", "before", "after", "after"]))
-    if base == "ETSD" and ff == "before":
+    ff = draw(st.sampled_from(["off", "before", "after", "after", "before2"]))
+    if base in ("ETSD", "ETOD-py26", "Multi-py26", "ETOD-py27") and ff in ("before", "before2"):
         ff = "after"
+    if ff == "before2" and base != "Multi":
+        ff = "before"
+    if base in ("ETOD-py26", "Multi-py26", "ETOD-py27"):
+        wraps = []
     hist = draw(HIST)
     # sprinkle stop() / failfast toggles
     ops = []
@@ -60,9 +64,12 @@ def build(spec):
     from testtools.testresult import real
     ff_inner = spec["failfast"] == "before"
     under = []
+    made = []
 
     def TR():
-        r = testtools.TestResult(failfast=ff_inner)
+        # "before2": only the second constituent was created with failfast
+        r = testtools.TestResult(failfast=ff_inner or (spec["failfast"] == "before2" and len(made) == 1))
+        made.append(r)
         under.append(r)
         return r
     b = spec["base"]
@@ -77,6 +84,16 @@ def build(spec):
         r = testtools.MultiTestResult(TR(), TR())
     elif b == "TSFR":
         r = testtools.ThreadsafeForwardingResult(TR(), threading.Semaphore(1))
+    elif b in ("ETOD-py26", "ETOD-py27"):
+        from vp.results import Py26, Py27
+        old_style = (Py26 if b == "ETOD-py26" else Py27)()
+        under.append(old_style)
+        r = testtools.ExtendedToOriginalDecorator(old_style)
+    elif b == "Multi-py26":
+        from vp.results import Py26
+        old_style = Py26()
+        under.append(old_style)
+        r = testtools.MultiTestResult(old_style, TR())
     else:
         r = testtools.ExtendedToStreamDecorator(testtools.StreamResult())
     for w in reversed(spec["wraps"]):
@@ -95,7 +112,10 @@ def run_case(spec):
     import testtools
     vs = []
     outer, under, text = build(spec)
-    driver = testtools.ExtendedToOriginalDecorator(outer)
+    # results wrapped around an old-style (2.6/2.7) target are driven directly: reporting straight to the
+    # adapter is what a plain unittest.TestCase does
+    direct = spec["base"] in ("ETOD-py26", "Multi-py26", "ETOD-py27")
+    driver = outer if direct else testtools.ExtendedToOriginalDecorator(outer)
     ff = spec["failfast"] != "off"
     bad = False
     bad_strict = False          # error/failure only (ETSD)
@@ -126,7 +146,7 @@ def run_case(spec):
             vs.append(V("stop", "%s-failfast=%s-%s" % (spec["base"], spec["failfast"], "early" if ss else "missing"),
                         "shouldStop is %r after %s on %s (failfast=%s, stop() called=%r, failing outcome=%r)" % (
                             ss, step, tag, spec["failfast"], stopped, bad)))
-        for u in under:
+        for u in ([] if direct else under):
             if bool(u.shouldStop) != want_stop and not (bool(ss) != want_stop):
                 vs.append(V("stop", "underlying-%s" % spec["base"], "an underlying result has shouldStop=%r, outer says %r after %s" % (u.shouldStop, ss, step)))
 
@@ -135,7 +155,8 @@ def run_case(spec):
         k = op["op"]
         if k == "startTestRun":
             driver.startTestRun()
-            bad = bad_strict = stopped = False
+            if not direct:      # 2.6/2.7-style targets know nothing of runs: their verdict and stop flag persist
+                bad = bad_strict = stopped = False
             restarts += 1
         elif k == "stopTestRun":
             driver.stopTestRun()
